@@ -6,6 +6,11 @@ VERIF = os.path.dirname(os.path.dirname(os.path.abspath(__file__)))
 ALL = ["C%02d" % i for i in range(1, 21)]
 
 CLAIMED = {
+ "C20": dict(
+   technique="TLA+ spec Reload.tla (signal handler, reload worker, main-loop completion, retirement waiters; one action per protocol primitive) model-checked exhaustively with TLC incl. liveness under weak fairness; BFS and simulated behaviours replayed on the real primitives of cmd/ with function-variable gates, seeded random gated walks, and a static path extraction of the worker's exits in run.go",
+   text="TLC checks AtMostOne, SuppressBalanced (every muting Begin has an End that finds the counter positive), NeverWedged, AnsweredAll, the action property RefusedChangesNothing and the liveness property that the system always returns to accepting requests, over all interleavings of 3-4 signals with every worker stage, a failure at each stage and retirement completions. Behaviours are executed on the real tryQueueReloadRequest / coalesceReloadRequest / clearReloadPending / finishReloadSuccess/Failure / releaseReloadPendingAfterRetirement with the real suppression counter, gated at the package's own function variables; random walks with long preemption windows explore schedules outside the model; go/ast ties every exit of the real worker iteration to the modelled failure or hand-off sequence.",
+   note="The two goroutines of run.go are skeletons calling the real primitives (the closure inside Runner.Run needs real control planes); stage contents are abstracted. Trusted: TLC.",
+   design="§3 C20"),
  "C10": dict(
    technique="TLA+ spec DomainTracker.tla (Mirror invariant over live cache entries; syncOwner write plan + tracker bookkeeping as implementation layer) model-checked exhaustively with TLC; TLC histories replayed through BatchUpdateDomainRouting/BatchRemoveDomainRouting with a real kernel domain_routing_map read back after every step",
    text="TLC checks Mirror (kernel table = OR of the bitmaps of the live entries listing each address; no entry otherwise; unspecified addresses never) in all 32768 reachable cache configurations and emits every history of length 4 over a reduced alphabet plus random histories of length 14; each history is executed on the real tracker writing a real kernel map, and the whole map is compared with the spec after every step.",
